@@ -17,6 +17,9 @@ def parse_state(label):
     """'/\\ a = 1\n/\\ b = <<..>>' -> dict of parsed values."""
     parts = _conj.split(label)
     d = {}
+    if len(parts) == 1:          # single variable: 'acc = 0'
+        m = re.match(r'\s*(\w+) = (.*)$', label, re.S)
+        return {m.group(1): parse_value(m.group(2))}
     for i in range(1, len(parts), 2):
         d[parts[i]] = parse_value(parts[i + 1])
     return d
